@@ -231,6 +231,11 @@ static std::string check_inv(const upa::url& u) {
         if (!u.is_null(url::QUERY)) { p += '?'; p.append(u.get_part_view(url::QUERY).data(), u.get_part_view(url::QUERY).length()); }
         if (p != std::string(u.path().data(), u.path().length())) return "path()!=pathname?query";
     }
+    // the get_<name> spellings return what the getters return
+    if (u.get_href() != u.href() || u.get_protocol() != u.protocol() || u.get_username() != u.username() || u.get_password() != u.password() ||
+        u.get_host() != u.host() || u.get_hostname() != u.hostname() || u.get_port() != u.port() || u.get_pathname() != u.pathname() ||
+        u.get_search() != u.search() || u.get_hash() != u.hash() || u.get_path() != u.path() || u.to_string() != std::string(u.href().data(), u.href().length()))
+        return "getter-alias";
     // segment count
     {
         std::size_t n = 0;
@@ -300,16 +305,18 @@ static std::string state(int i) {
         // prints only "valid=0"; anything appended here is a disagreement.
         try {
             std::size_t n = 0;
-            n += u.href().length(); n += u.origin().length(); n += u.protocol().length(); n += u.username().length();
-            n += u.password().length(); n += u.host().length(); n += u.hostname().length(); n += u.port().length();
-            n += u.pathname().length(); n += u.search().length(); n += u.hash().length(); n += u.path().length();
-            n += u.serialize(true).length(); n += u.serialize(false).length();
+            // the bytes of every view are READ (a view that points outside the string is an out-of-bounds access)
+            auto rd = [](upa::string_view v) { std::size_t h = v.length(); for (std::size_t i = 0; i < v.length(); ++i) h = h * 31 + static_cast<unsigned char>(v.data()[i]); return h; };
+            n += rd(u.href()); { const std::string og = u.origin(); n += og.length(); } n += rd(u.protocol()); n += rd(u.username());
+            n += rd(u.password()); n += rd(u.host()); n += rd(u.hostname()); n += rd(u.port());
+            n += rd(u.pathname()); n += rd(u.search()); n += rd(u.hash()); n += rd(u.path());
+            n += rd(u.serialize(true)); n += rd(u.serialize(false));
             n += static_cast<std::size_t>(u.port_int() + 2); n += static_cast<std::size_t>(u.real_port_int() + 2);
             n += u.has_credentials() ? 1 : 0; n += u.has_opaque_path() ? 1 : 0; n += u.empty() ? 1 : 0;
             n += static_cast<std::size_t>(u.host_type()); n += u.is_special_scheme() ? 1 : 0;
             for (int t = 0; t < upa::url::PART_COUNT; ++t) {
                 const auto pt = static_cast<upa::url::PartType>(t);
-                if (t != upa::url::SCHEME_SEP && t != upa::url::HOST_START && t != upa::url::PATH_PREFIX) n += u.get_part_view(pt).length();
+                if (t != upa::url::SCHEME_SEP && t != upa::url::HOST_START && t != upa::url::PATH_PREFIX) n += rd(u.get_part_view(pt));
                 n += u.is_null(pt) ? 1 : 0;
             }
             n += std::hash<upa::url>{}(u) & 1;
@@ -345,7 +352,7 @@ static std::string usp_state(const upa::url_search_params& p) {
     bool first = true;
     for (const auto& kv : p) { o << (first ? "" : ",") << hx(kv.first) << "=" << hx(kv.second); first = false; }
     if (first) o << "-";
-    o << " str=" << hx(p.to_string());
+    { std::string q = "pre&"; p.serialize(q); o << " str=" << ((q.compare(0, 4, "pre&") == 0 && q.substr(4) == p.to_string()) ? hx(p.to_string()) : std::string("SERIALIZE-APPEND-MISMATCH")); }
     // is_sorted_ cache must be sound
     if (p.is_sorted_) {
         bool sorted = true;
@@ -535,6 +542,35 @@ static std::string run_cmd(const std::vector<std::string>& a) {
         refresh_sp(s);
         return std::string("parse ") + (r == validation_errc::ok ? "ok" : "fail") + " " + state(s);
     }
+    if (c == "usp_selfparse") {   // usp_selfparse <k> <i> <n|v>: parse() with a view of the i-th pair's own name / value
+        need(3);
+        const int k = slot_of(a[1]); if (k < 0) return "ERR";
+        if (!g_usp[k]) g_usp[k].reset(new upa::url_search_params());
+        upa::url_search_params& p = *g_usp[k];
+        auto it = p.begin(); std::size_t j = 0; const std::size_t i = sz_of(a[2]);
+        while (it != p.end() && j < i) { ++it; ++j; }
+        if (it == p.end()) return "usp skipped";
+        const std::string& own = a[3] == "n" ? it->first : it->second;
+        p.parse(upa::string_view{ own.data(), own.size() });
+        return "usp " + usp_state(p);
+    }
+    if (c == "nxmove") {   // the noexcept operations (move constructor, swap): net effect none; they must not allocate
+        need(1); const int d = slot_of(a[1]); if (d < 0) return "ERR";
+        { upa::url& x = U(d); ARM({ upa::url tmp(std::move(x)); x.swap(tmp); upa::url tmp2(std::move(x)); swap(x, tmp2); }); }
+        refresh_sp(d);
+        return "nxmove " + state(d);
+    }
+    if (c == "vecgrow") {   // vecgrow <slot> <n>: the object lives in a std::vector that reallocates n times, then comes back
+        need(2); const int s = slot_of(a[1]); if (s < 0) return "ERR";
+        std::vector<upa::url> v; v.reserve(1);
+        v.push_back(std::move(U(s)));
+        const std::size_t n = sz_of(a[2]) % 8;
+        for (std::size_t i = 0; i < n; ++i) { v.reserve(v.capacity() + 1 + i); }     // forces reallocation: elements are moved (noexcept move constructor)
+        *g_url[s] = std::move(v.front());
+        refresh_sp(s);
+        std::ostringstream o; o << "vecgrow " << state(s) << " nothrow_move=" << (std::is_nothrow_move_constructible<upa::url>::value ? 1 : 0);
+        return o.str();
+    }
     if (c == "usp_selfname") {   // usp_selfname <k> <op> <i> <n> [value]: the name argument is a view into the i-th pair's own name
         need(4);
         const int k = slot_of(a[1]); if (k < 0) return "ERR";
@@ -562,6 +598,24 @@ static std::string run_cmd(const std::vector<std::string>& a) {
             else return "ERR";
         }
         return "usp " + usp_state(p) + extra.str();
+    }
+    if (c == "set2") {   // the set_<name> spellings of the setters (same behaviour as "set")
+        need(3);
+        const int s = slot_of(a[1]); Tok t; if (s < 0 || !parse_tok(a[3], t)) return "ERR bad-args";
+        upa::url& u = U(s); bool r = false; const std::string& w = a[2];
+        if (w == "href") WITH_STR(t, S, r = u.set_href(S));
+        else if (w == "protocol") WITH_STR(t, S, r = u.set_protocol(S));
+        else if (w == "username") WITH_STR(t, S, r = u.set_username(S));
+        else if (w == "password") WITH_STR(t, S, r = u.set_password(S));
+        else if (w == "host") WITH_STR(t, S, r = u.set_host(S));
+        else if (w == "hostname") WITH_STR(t, S, r = u.set_hostname(S));
+        else if (w == "port") WITH_STR(t, S, r = u.set_port(S));
+        else if (w == "pathname") WITH_STR(t, S, r = u.set_pathname(S));
+        else if (w == "search") WITH_STR(t, S, r = u.set_search(S));
+        else if (w == "hash") WITH_STR(t, S, r = u.set_hash(S));
+        else return "ERR bad-setter";
+        (void)r; refresh_sp(s);
+        return "set " + state(s);
     }
     if (c == "setself") {
         // setself <slot> <setter> <getter>: the argument is the view one of the object's own getters returned
@@ -713,7 +767,11 @@ static std::string run_cmd(const std::vector<std::string>& a) {
     if (c == "ipv4") { need(1); Tok t; if (!parse_tok(a[1], t)) return "ERR"; uint32_t v = 0; validation_errc r = validation_errc::ok;
         switch (t.enc) { case 'h': { const tight_copy<char16_t> tc(t.s16.data(), t.s16.size()); r = ipv4_parse(tc.p.get(), tc.p.get() + tc.n, v); } break; case 'w': { const tight_copy<char32_t> tc(t.s32.data(), t.s32.size()); r = ipv4_parse(tc.p.get(), tc.p.get() + tc.n, v); } break; default: { const tight_copy<char> tc(t.s8.data(), t.s8.size()); r = ipv4_parse(tc.p.get(), tc.p.get() + tc.n, v); } }
         if (r != validation_errc::ok) return "ipv4 fail"; std::string o; ipv4_serialize(v, o); return "ipv4 ok " + std::to_string(v) + " " + hx(o); }
-    if (c == "ipv4ser") { need(1); const uint32_t v = static_cast<uint32_t>(std::strtoul(a[1].c_str(), nullptr, 10)); std::string o; ipv4_serialize(v, o);
+    if (c == "ipv4ser") { need(1); const uint32_t v = static_cast<uint32_t>(std::strtoul(a[1].c_str(), nullptr, 10));
+        static const char* const pre4[] = { "", "1", "9.", ".", "0x", "a" };
+        const std::string prefix = pre4[v % 6]; std::string o = prefix; ipv4_serialize(v, o);
+        if (o.compare(0, prefix.size(), prefix) != 0) return "ipv4ser prefix-clobbered";
+        o.erase(0, prefix.size());
         uint32_t back = 0; const auto r = ipv4_parse(o.data(), o.data() + o.size(), back); return "ipv4ser " + hx(o) + " back=" + ((r == validation_errc::ok && back == v) ? "1" : "0"); }
     if (c == "endsnum") { need(1); Tok t; if (!parse_tok(a[1], t)) return "ERR"; bool r = false;
         switch (t.enc) { case 'h': { const tight_copy<char16_t> tc(t.s16.data(), t.s16.size()); r = hostname_ends_in_a_number(tc.p.get(), tc.p.get() + tc.n); } break; case 'w': { const tight_copy<char32_t> tc(t.s32.data(), t.s32.size()); r = hostname_ends_in_a_number(tc.p.get(), tc.p.get() + tc.n); } break; default: { const tight_copy<char> tc(t.s8.data(), t.s8.size()); r = hostname_ends_in_a_number(tc.p.get(), tc.p.get() + tc.n); } }
@@ -721,7 +779,12 @@ static std::string run_cmd(const std::vector<std::string>& a) {
     if (c == "ipv6") { need(1); Tok t; if (!parse_tok(a[1], t)) return "ERR"; uint16_t ad[8]; validation_errc r = validation_errc::ok;
         switch (t.enc) { case 'h': { const tight_copy<char16_t> tc(t.s16.data(), t.s16.size()); r = ipv6_parse(tc.p.get(), tc.p.get() + tc.n, ad); } break; case 'w': { const tight_copy<char32_t> tc(t.s32.data(), t.s32.size()); r = ipv6_parse(tc.p.get(), tc.p.get() + tc.n, ad); } break; default: { const tight_copy<char> tc(t.s8.data(), t.s8.size()); r = ipv6_parse(tc.p.get(), tc.p.get() + tc.n, ad); } }
         if (r != validation_errc::ok) return "ipv6 fail"; std::string o; ipv6_serialize(ad, o); std::ostringstream os; os << "ipv6 ok"; for (int i = 0; i < 8; ++i) os << " " << ad[i]; os << " " << hx(o); return os.str(); }
-    if (c == "ipv6ser") { need(8); uint16_t ad[8]; for (int i = 0; i < 8; ++i) ad[i] = static_cast<uint16_t>(std::strtoul(a[1 + i].c_str(), nullptr, 10)); std::string o; ipv6_serialize(ad, o);
+    if (c == "ipv6ser") { need(8); uint16_t ad[8]; unsigned sum = 0; for (int i = 0; i < 8; ++i) { ad[i] = static_cast<uint16_t>(std::strtoul(a[1 + i].c_str(), nullptr, 10)); sum += ad[i] + static_cast<unsigned>(i) * (ad[i] ? 1u : 0u); }
+        // the serializer APPENDS to its output argument: what is already there must not matter
+        static const char* const pre[] = { "", "x", "ipv6:", "[", "a::", ":", "::", "1" };
+        const std::string prefix = pre[sum % 8]; std::string o = prefix; ipv6_serialize(ad, o);
+        if (o.compare(0, prefix.size(), prefix) != 0) return "ipv6ser prefix-clobbered";
+        o.erase(0, prefix.size());
         uint16_t back[8]; const auto r = ipv6_parse(o.data(), o.data() + o.size(), back); bool same = r == validation_errc::ok; for (int i = 0; same && i < 8; ++i) same = back[i] == ad[i];
         return "ipv6ser " + hx(o) + " back=" + (same ? "1" : "0"); }
     if (c == "pctenc") { need(2); Tok t; if (!parse_tok(a[2], t)) return "ERR"; std::string o;
@@ -849,7 +912,7 @@ int main(int argc, char** argv) {
     // concurrently with thread 0 using the source.  Hidden sharing between an object and what it was copied
     // from shows as a ThreadSanitizer report or as a final state that differs from the sequential expectation.
     struct Derived { std::unique_ptr<upa::url> cp, asg, mv; std::unique_ptr<upa::url_search_params> snap, snap2; };
-    const char* kSrc = "https://user:pw@b\xC3\xBC" "cher.example:8443/a/b/../c?z=26&y=25&x=%C3%BC&w#frag";
+    const char* kSrc = "https://user:pw@source.example:8443/a/b/../c?z=26&y=25&x=%C3%BC&w#frag";   // ASCII host: no IDNA conversion before the threads start
     auto make_src = [&](upa::url& u) { u.parse(kSrc, nullptr); u.search_params(); };
     auto use_url = [](upa::url& u, int t) {
         std::string acc;
